@@ -156,17 +156,38 @@ func arityScenario(tuple []ct.Comp, depth int) *engine.Scenario {
 		}
 		if canFilter {
 			ops = append(ops, regOps(m, []int{1})...)
+			if len(relc) > 0 {
+				// several queries of the same filter with different per-query targets open at once
+				ops = append(ops, queryOps(m, []int{1}, func(int) [][]model.RelT {
+					out := [][]model.RelT{rel(relc[0], model.ZeroTarget)}
+					if tgt == 0 {
+						out = append(out, rel(relc[0], 0))
+					}
+					return out
+				})...)
+			}
 		}
 		return validOnly(m, ops)
+	}
+	preludes := [][]model.Op{pre}
+	if canFilter && len(relc) > 0 {
+		// children of #0 and of the zero entity, and one Batch(rel...) call on the filter beforehand
+		p2 := append([]model.Op{}, pre...)
+		p2 = append(p2,
+			model.Op{K: model.OpNew, Path: model.PathMapN, Cs: cs, Ord: tuple, T: relsTo(0)},
+			model.Op{K: model.OpNew, Path: model.PathMapN, Cs: cs, Ord: tuple, T: relsTo(model.ZeroTarget)},
+			model.Op{K: model.OpSetRelBatch, Path: model.PathMapN, F: 1, Ord: tuple, QT: rel(relc[0], 0), T: rel(relc[0], 0)},
+		)
+		preludes = append(preludes, p2)
 	}
 	return &engine.Scenario{
 		Name:     fmt.Sprintf("C14-arity%d%v", n, tuple),
 		Cfgs:     []drv.Config{{Cap: 1, Universe: allComps}},
 		Filters:  filters,
 		Obs:      obs,
-		Slots:    1,
-		Oracle:   drv.Oracle{World: true, Typed: true, Family: family, Filters: true, Lock: true, Events: true, InCb: canObs, Tuple: tuple},
-		Preludes: [][]model.Op{pre},
+		Slots:    2,
+		Oracle:   drv.Oracle{World: true, Typed: true, Family: family, Filters: true, Lock: true, Events: true, InCb: canObs, InCbPtr: true, Tuple: tuple},
+		Preludes: preludes,
 		Alphabet: alpha,
 		Depth:    depth,
 	}
